@@ -68,7 +68,7 @@ func (s *scripted) tick() int64 { s.clock++; return s.clock }
 
 func (s *scripted) logf(f string, a ...any) {
 	s.trace = append(s.trace, fmt.Sprintf(f, a...))
-	if len(s.trace) > 300 {
+	if len(s.trace) > 300 && os.Getenv("VERIF_DEBUG_TRACE") == "" {
 		s.trace = s.trace[150:]
 	}
 }
@@ -493,7 +493,7 @@ func runScripted(c core.Case) core.Result {
 	earlyLeft := 0
 	if family == "oldreader-early" {
 		family = "oldreader"
-		earlyLeft = 1 + r.Intn(2)
+		earlyLeft = 1 // exactly one: a second early commit to the same keys would mask the loss of the first
 	}
 	if family == "reopen-reader" {
 		// build some state, close, reopen, and begin long-lived readers BEFORE the first commit of the
@@ -526,6 +526,14 @@ func runScripted(c core.Case) core.Result {
 	if family == "oldreader" && earlyLeft > 0 {
 		// an even older reader holds the read watermark back; it ends after the early commits, which
 		// makes the committed-list cleanup run exactly then
+		for i := 0; i < 2+r.Intn(3); i++ {
+			// warm-up commits: the read watermark must be able to *advance* when the older reader ends
+			// (the committed list is cleaned only when the watermark moved)
+			w0 := s.begin(true)
+			s.open = append(s.open, w0)
+			s.write(w0, r.Intn(nk), false)
+			s.finish(w0, "commit")
+		}
 		pre = s.begin(false)
 		s.open = append(s.open, pre)
 		pre.pinned = true
@@ -576,6 +584,9 @@ func runScripted(c core.Case) core.Result {
 					if t.pinned {
 						t.pinned = false
 						for k := 0; k < nk; k++ {
+							if t.update && len(avoid) > 0 && !avoid[k] {
+								continue // oldreader-early: its read set stays what it read at the start
+							}
 							s.get(t, k) // the long-lived transaction still reads its snapshot
 						}
 						if t.update {
@@ -599,7 +610,14 @@ func runScripted(c core.Case) core.Result {
 			case x < 14 && len(s.open) < 6:
 				s.open = append(s.open, s.begin(r.Intn(4) > 0))
 			case x < 42 && len(s.open) > 0:
-				s.get(s.open[r.Intn(len(s.open))], r.Intn(nk))
+				t := s.open[r.Intn(len(s.open))]
+				k := r.Intn(nk)
+				if t.pinned && t.update && len(avoid) > 0 && !avoid[k] {
+					// the old reader of an oldreader-early script reads nothing else: only the early
+					// commits may make it conflict
+					break
+				}
+				s.get(t, k)
 			case x < 62 && len(cand) > 0:
 				s.write(cand[r.Intn(len(cand))], pickKey(), r.Intn(5) == 0)
 			case x < 80 && len(cand) > 0:
@@ -690,6 +708,9 @@ func runScripted(c core.Case) core.Result {
 		"nt_C08": s.stat["abandoned_writesets"] > 0 && obs["flush"] > 0,
 	}
 	res.Hash = core.HashOf([]any{c.Seed, c.S, c.N})
+	if f := os.Getenv("VERIF_DEBUG_TRACE"); f != "" {
+		os.WriteFile(f, []byte(strings.Join(s.trace, "\n")), 0644)
+	}
 	if c.Int("sample", 0) == 1 {
 		res.Sample = map[string]any{"kind": "scripted/" + family, "config": gen.CfgString(s.cfg), "keys": s.keys, "steps": steps,
 			"first_steps": s.trace[:min(14, len(s.trace))], "stats": s.stat}
